@@ -105,14 +105,14 @@ theorem simplify_eq (selfFrames : List (F × String)) (e : Prog F) :
   congr 1
   · apply List.filter_congr
     intro x _
-    simp [keepFrameB, framesUsed_contains]
-  · apply List.filter_congr
-    intro x _
-    simp [keepWaveformB, waveformsUsed_contains]
-  · apply List.filter_congr
-    intro x _
     unfold keepExternB
-    cases x.1 <;> simp [externsUsed_contains]
+    cases x.1 <;> simp only [externsUsed_contains]
+  · apply List.filter_congr
+    intro x _
+    simp only [keepFrameB, framesUsed_contains]
+  · apply List.filter_congr
+    intro x _
+    simp only [keepWaveformB, waveformsUsed_contains]
 
 /-- **C35 (definitions and body), all programs**: when the original program's frame set is the expanded
 program's (no DEFFRAME inside a calibration body), `simplify` returns the expanded body, no calibrations,
